@@ -313,8 +313,27 @@ impl<'a, 'tcx> Cx<'a, 'tcx> {
                     } else if let ConstValue::Scalar(rustc_middle::mir::interpret::Scalar::Ptr(ptr, _)) = val {
                         // reference to a static item
                         let (prov, _off) = ptr.into_raw_parts();
-                        if let Some(rustc_middle::mir::interpret::GlobalAlloc::Static(sd)) = tcx.try_get_global_alloc(prov.alloc_id()) {
-                            let _ = write!(out, ",\"static\":{}", js(&path_s(tcx, sd)));
+                        match tcx.try_get_global_alloc(prov.alloc_id()) {
+                            Some(rustc_middle::mir::interpret::GlobalAlloc::Static(sd)) => {
+                                let _ = write!(out, ",\"static\":{}", js(&path_s(tcx, sd)));
+                            }
+                            Some(rustc_middle::mir::interpret::GlobalAlloc::Memory(alloc)) => {
+                                // `&[u8; N]` literals (byte strings, the templates of format_args!): the bytes themselves
+                                let is_bytes = matches!(ty.kind(), ty::Ref(_, inner, _) if matches!(inner.kind(), ty::Array(e, _) if *e == tcx.types.u8));
+                                let a = alloc.inner();
+                                if is_bytes && _off.bytes() == 0 && a.len() <= 512 && a.provenance().ptrs().is_empty() {
+                                    let bytes = a.inspect_with_uninit_and_ptr_outside_interpreter(0..a.len());
+                                    out.push_str(",\"bytes\":[");
+                                    for (i, b) in bytes.iter().enumerate() {
+                                        if i > 0 {
+                                            out.push(',');
+                                        }
+                                        let _ = write!(out, "{}", b);
+                                    }
+                                    out.push(']');
+                                }
+                            }
+                            _ => {}
                         }
                     }
                 }
